@@ -29,6 +29,7 @@ Verdict(d) ==
       lalr_ok |-> (lalr => \A qt \in conf :
                       Cardinality({a \in TCell(T, qt[1], qt[2]) : a.k # "r" \/ a.n = RhsLen(T, a.p)}) <= 1),
       wf |-> WFDefects(T, C),
+      epsloop |-> Cardinality(EpsLoops(T)),
       \* binding of the OPERATIONAL construction model: Automaton.Build (FIFO work list,
       \* merge test, propagation) must reproduce the dumped automaton state by state
       \* (a difference is a DIVERGENCE, never a verdict)
